@@ -658,7 +658,7 @@ CATALOGUE: List[Tuple[Optional[str], str]] = [
     ("trapmod", "__dict__"), ("trapmod", "__getattribute__"), ("trapmod", "Cls.__new__"), ("trapmod", "Cls.__init__"),
     ("sys", "exit"), ("sys", "modules"), ("sys", "getrecursionlimit"), ("shutil", "which"), ("pickle", "loads"),
     ("importlib", "import_module"), ("typing", "Any"), ("json", "loads"), ("threading", "Thread"), ("asyncio", "run"),
-    ("taskiq.serialization", "prepare_exception"), ("taskiq.serialization", "ExceptionRepr"), ("taskiq", "InMemoryBroker"),
+    ("taskiq.brokers.inmemory_broker", "InmemoryResultBackend"), ("taskiq.state", "TaskiqState"), ("taskiq", "InMemoryBroker"),
     ("pydantic", "BaseModel"), ("logging", "getLogger"), ("os", "getcwd"), ("os", "getpid"), ("os", "cpu_count"), ("signal", "getsignal"),
     # exception classes: must load
     ("builtins", "ValueError"), ("builtins", "KeyError"), ("builtins", "BaseException"), ("builtins", "SystemExit"),
@@ -737,9 +737,41 @@ def payload_dict(module: Optional[str], name: str, args: List[Any], nest: int, w
     return p
 
 
+LEGIT_CALLEES: List[Any] = []
+_legit_done = [False]
+
+
+def calibrate_legit_callees() -> None:
+    """Callables that taskiq's own load path invokes for a *benign* nested payload (isinstance,
+    issubclass, getattr, exception_to_python itself, ...).  A payload naming one of those cannot be
+    judged by 'the target was called' (taskiq calls it for its own purposes); the outcome rule
+    (SecurityError / no trap / no import) still applies to it."""
+    if _legit_done[0]:
+        return
+    _legit_done[0] = True
+    p = payload_dict("builtins", "ValueError", ["x"], 2, "mixed")
+    p2 = payload_dict("nosuchmodule", "Ghost", ["x"], 1, "cause")
+    del CALLS[:]
+    for q in (p, p2):
+        try:
+            ser.exception_to_python(q)  # type: ignore[arg-type]
+            TaskiqResult.model_validate({"is_err": True, "return_value": None, "execution_time": 0.1, "error": q})
+        except Exception:  # noqa: BLE001
+            pass
+    try:
+        ser.exception_to_python(payload_dict("builtins", "len", [], 0, "cause"))  # type: ignore[arg-type]
+    except Exception:  # noqa: BLE001
+        pass
+    for c in CALLS:
+        if not any(c is x for x in LEGIT_CALLEES):
+            LEGIT_CALLEES.append(c)
+    del CALLS[:]
+
+
 def run_c20(spec: Dict[str, Any]) -> "tuple[List[Violation], Dict[str, Any]]":
     install_trapmod()
     monitor_start()
+    calibrate_legit_callees()
     v: List[Violation] = []
     module, name, args = spec["module"], spec["name"], spec["args"]
     ok, target = resolve(module, name)
@@ -778,7 +810,7 @@ def run_c20(spec: Dict[str, Any]) -> "tuple[List[Violation], Dict[str, Any]]":
         obs["call_events"] = obs.get("call_events", 0) + len(calls)
         new_mods = set(sys.modules) - before
         # (i) call sanitizer: the resolved target must never be called unless it is an exception class
-        if ok and not is_exc:
+        if ok and not is_exc and not any(target is x for x in LEGIT_CALLEES):
             for c in calls:
                 if c is target or (callable(target) and getattr(c, "__func__", None) is target):
                     v.append(Violation("called-non-exception", f"{entry}: taskiq code called {module}.{name} ({_safe(target)}) while loading a stored error"))
@@ -857,7 +889,7 @@ class C20(Check):
                             "datetime", "decimal", "fractions", "enum", "dataclasses", "typing", "types", "copy", "heapq",
                             "bisect", "base64", "binascii", "hashlib", "hmac", "uuid", "random", "statistics", "numbers",
                             "abc", "contextlib", "calendar", "struct", "array", "unicodedata", "codecs", "html",
-                            "urllib.parse", "email", "pytz", "pycron", "zoneinfo", "izulu", "taskiq", "trapmod",
+                            "urllib.parse", "email", "pytz", "pycron", "zoneinfo", "izulu", "trapmod",
                             "typing_extensions", "annotated_types", "packaging", "keyword", "token", "reprlib", "pprint",
                             "graphlib", "ipaddress", "colorsys", "cmath", "difflib", "fnmatch", "locale", "gettext")
                     mods = sorted(m for m in sys.modules if sys.modules[m] is not None
